@@ -1258,7 +1258,10 @@ def check_case(ctx, prop, binary, case, report_props=None):
     ctx.count("lang_tracked_records", m.counts["tracked"])
     want = report_props or {prop, "HARNESS"}
     for p, key, what in m.findings:
-        if p in want:
+        if prop == "C02" and p == "C17" and key == "tracked:outcome":
+            # the tracked outcome is one of the views C02 requires to agree with the returned bit
+            ctx.violation("measure:views:tracked", what, case, files)
+        elif p in want:
             ctx.violation(key if p == prop else p + ":" + key, what, case, files)
     # expected termination
     if stop is None and cls[0] != "ok":
@@ -1283,6 +1286,12 @@ def reset_statistics(ctx, binary):
                  "H1 p = new H1(); measure b; measure p.q;",
         "ghz": "qubit a; @tracked qubit[2] r; h(a); cx(a, r[0]); cx(a, r[1]); reset a; "
                "measure r; measure a;",
+        # a re-allocated index must come back as |0> whatever happened to it while it was free
+        "zero:reuse-after-stale-gate": "H1 o = new H1(); qubit s = o.q; destroy o; h(s); HT p = new HT(); "
+                                       "HT p2 = new HT(); HT p3 = new HT(); measure p.tq; measure p2.tq; measure p3.tq;",
+        "zero:reuse-after-x": "HT o = new HT(); x(o.tq); destroy o; HT p = new HT(); measure p.tq;",
+        "zero:destroy-entangled-then-reuse": "HT o = new HT(); qubit c; h(c); cx(c, o.tq); destroy o; "
+                                             "HT p = new HT(); measure p.tq; measure c;",
     }
 
     def one(item):
@@ -1309,6 +1318,13 @@ def reset_statistics(ctx, binary):
         ones = sum(v for k, v in counts.items() if k and set(k) == {"1"})
         zeros = sum(v for k, v in counts.items() if k and set(k) == {"0"})
         other = total - ones - zeros
+        if name.startswith("zero:"):
+            ctx.count("c04_reuse_shots", total)
+            if ones:
+                ctx.violation("reset:reuse-not-zero:" + name[5:],
+                              "a re-allocated qubit did not read 0: outcomes %r over %d shots" % (counts, shots),
+                              dict(variant=name), {"prog.bloch": src})
+            continue
         sigma = math.sqrt(0.25 / max(total, 1))
         dev = abs(ones / max(total, 1) - 0.5)
         if total != shots or other or dev > 6 * sigma:
